@@ -456,6 +456,16 @@ def foreign_constant(got, want):
     return None
 
 
+def float_hazard(got, want):
+    """-> text or None: ways in which `got` can equal `want` over the rationals and still be a different floating-point function"""
+    v = foreign_constant(got, want)
+    if v is not None:
+        return "the literal %g, which the documented formula does not contain" % v
+    from norm import hazards
+    hz = hazards(got)
+    return hz[0] if hz else None
+
+
 def check_binding(F, struct, spec, b, classes):
     N = Normalizer()
     out = []
@@ -515,9 +525,9 @@ def check_binding(F, struct, spec, b, classes):
             d = dict(ret[3]) if isinstance(ret, tuple) and ret[0] == "adt" else {}
             for fld, wt in want["out"].items():
                 ok, cx = equal(d.get(fld, ("missing",)), E.of(wt), N)
-                fc_ = foreign_constant(d.get(fld, ("missing",)), E.of(wt)) if ok else None
+                fc_ = float_hazard(d.get(fld, ("missing",)), E.of(wt)) if ok else None
                 if fc_ is not None:
-                    out.append((False, "foreign-constant", "%s.%s" % (inst, fld), "%s computes %s with the literal %g, which the documented formula does not contain: equal in real arithmetic only" % (fn.label, fld, fc_), loc_of(fn), {}))
+                    out.append((False, "foreign-constant", "%s.%s" % (inst, fld), "%s computes %s with %s: equal in real arithmetic only" % (fn.label, fld, fc_), loc_of(fn), {}))
                     continue
                 out.append((ok, "output", "%s.%s" % (inst, fld), "" if ok else "%s returns %s = %s; documented: %s" % (fn.label, fld, show(d.get(fld))[:220], show(E.of(wt))[:220]), loc_of(fn), {"term": show(E.of(wt))[:200]}))
             extra = [k for k in d if k not in want["out"]]
@@ -525,10 +535,10 @@ def check_binding(F, struct, spec, b, classes):
                 out.append((False, "output", inst + ".extra", "%s returns undocumented field(s) %s" % (fn.label, extra), loc_of(fn), {}))
         else:
             ok, cx = equal(ret, E.of(want["out"]), N)
-            fc_ = foreign_constant(ret, E.of(want["out"])) if ok else None
+            fc_ = float_hazard(ret, E.of(want["out"])) if ok else None
             if fc_ is not None:
                 ok = False
-                out.append((False, "foreign-constant", inst, "%s computes its output with the literal %g, which the documented formula does not contain: equal in real arithmetic only" % (fn.label, fc_), loc_of(fn), {}))
+                out.append((False, "foreign-constant", inst, "%s computes its output with %s: equal in real arithmetic only" % (fn.label, fc_), loc_of(fn), {}))
             out.append((ok, "output", inst, "" if ok else "%s returns %s; documented: %s%s" % (fn.label, show(ret)[:260], show(E.of(want["out"]))[:260], (" (differs when %s)" % fmt_cx(cx)) if cx else ""), loc_of(fn), {"term": show(E.of(want["out"]))[:200]}))
         # state fields
         for role, (cls, ty) in spec["roles"].items():
@@ -538,10 +548,10 @@ def check_binding(F, struct, spec, b, classes):
                 wt = E.of(want["post"].get(role, ("pre", key)))
                 got = heap.get(key, ("pre", key))
                 ok, cx = equal(got, wt, N)
-                fc_ = foreign_constant(got, wt) if ok else None
+                fc_ = float_hazard(got, wt) if ok else None
                 if fc_ is not None:
                     ok = False
-                    out.append((False, "foreign-constant", "%s: %s'" % (inst, f), "%s updates `%s` with the literal %g, which the documented formula does not contain: equal in real arithmetic only" % (fn.label, f, fc_), loc_of(fn), {}))
+                    out.append((False, "foreign-constant", "%s: %s'" % (inst, f), "%s updates `%s` with %s: equal in real arithmetic only" % (fn.label, f, fc_), loc_of(fn), {}))
                 out.append((ok, "post-state", "%s: %s'" % (inst, f), "" if ok else "%s leaves `%s` = %s; documented: %s" % (fn.label, f, show(got)[:200], show(wt)[:200]), loc_of(fn), {"term": show(wt)[:200]}))
             elif cls == "PARAM":
                 if key in heap:
